@@ -1,7 +1,8 @@
 """C02 lemma layer (no code involved): the greedy left-to-right check (spec.c01.axis_step, the function the real
 _check_dims is proved equal to) accepts exactly when ONE assignment alpha of sizes to axis names satisfies every axis
 seen so far -- for single-axis specifiers (anonymous, fixed, named incl. '#' and '?', symbolic under the property's own
-side condition). Multi-axis ('*name') specifiers are NOT covered here (bounded stand-ins b01/b02).
+side condition) and, second block, for multi-axis ('*name' / '*#name') specifiers over the assumed order contract of
+numpy.broadcast_shapes (validated exhaustively within a bound by b22).
 
 Declarative side:   AxisSat(d, s, alpha):  '_' true | fixed n: s == n or (# and s == 1) | named x: s == alpha(key(x)) or (# and s == 1)
                     | symbolic e: s == EvalA(e, alpha) or (# and s == 1)
@@ -69,7 +70,96 @@ def build(repo=None):
     # a non-accepting verdict under the side conditions is a plain reject (no AnnotationError / propagated exception)
     ob("C02:lemma:under-the-side-conditions-the-step-either-accepts-or-rejects", [], z3.Or(verdict == 0, verdict == 1))
     obl.append({"clause": "canary:c02-lemma-preconditions-satisfiable", "kind": "canary", "pc": pre + [verdict == 0, is_named], "goal": z3.BoolVal(False), "path": [], "meta": {}})
+    obl.extend(_variadic_block())
     return {"obligations": obl, "assumptions": [
+        "lemma layer, multi-axis block: 'A broadcasts to S' := BcOk(A,S) and BcVal(A,S) == S is a partial order on shapes and BcVal(M,P) is the least upper bound of M and P "
+        "whenever one exists (BcOk(M,P) fails otherwise) -- the order contract of numpy.broadcast_shapes, assumed (T5), instantiated on the terms {M, P, BcVal(M,P), alpha}; "
+        "validated exhaustively for all shapes of rank <= 3 over sizes 0..3 by the bounded stand-in b22 (bounded, not proved)",
         "lemma layer: the value of a symbolic axis expression depends only on the names it mentions (EvalVal over the memo == value under any assignment extending it), the property's own side condition",
-        "the induction over the sequence of axis events that lifts the step lemmas to whole calls is the meta-step T6; multi-axis specifiers are outside this lemma (bounded stand-ins b01/b02)",
+        "the induction over the sequence of axis events that lifts the step lemmas to whole calls is the meta-step T6; how a '*name' splits the shape between the single axes around it is "
+        "proved in the check_shape unit (slice arithmetic), not here",
     ]}
+
+
+def _variadic_block():
+    """'*name' / '*#name' occurrences: spec.c01.variadic_step (the function the four variadic cases of the real _check_shape are proved
+    equal to) against the declarative reading of the statement ("one assignment ... of shapes to '*names'"):
+        VSat(b, M, A)      :=  M == A            if the occurrence is not '#'-marked
+                               M broadcasts to A  if it is
+        A extends (pb, P)  :=  P == A            if the stored entry is exact (pb false)
+                               P broadcasts to A  if it is a lower bound collected from '#'-marked occurrences only (pb true)
+    Only the entry at the occurrence's own key can change (frame proved in check_shape), so alpha is one Skolem shape A."""
+    from ..units.check_shape import BcOk, BcVal, SEQI
+    b, pb, has_prev = z3.Bools("v_b v_pb v_has_prev")
+    M, P, A = z3.Const("v_M", SEQI), z3.Const("v_P", SEQI), z3.Const("v_alpha", SEQI)
+    ops = _SeqOps()
+    V = BcVal(M, P)
+    accept, store, nb, nshape = c01.variadic_step(ops, b, M, has_prev, pb, P, BcOk(M, P), V)
+    bt = lambda x, s: z3.And(BcOk(x, s), BcVal(x, s) == s)
+    terms = [M, P, V, A]
+    ax = []
+    for x in terms:
+        ax.append(bt(x, x))  # reflexive
+    for x in terms:
+        for y in terms:
+            if x is y:
+                continue
+            ax.append(z3.And(BcOk(x, y) == BcOk(y, x), BcVal(x, y) == BcVal(y, x)))  # symmetric (as in the check_shape unit)
+            ax.append(z3.Implies(z3.And(bt(x, y), bt(y, x)), x == y))  # antisymmetric
+            for w in terms:
+                ax.append(z3.Implies(z3.And(bt(x, y), bt(y, w)), bt(x, w)))  # transitive
+    ax.append(z3.Implies(BcOk(M, P), z3.And(bt(M, V), bt(P, V))))  # the broadcast is an upper bound
+    for u in (A, M, P):
+        ax.append(z3.Implies(z3.And(bt(M, u), bt(P, u)), z3.And(BcOk(M, P), bt(V, u))))  # ... and the least one, when one exists
+    sat = z3.If(b, bt(M, A), M == A)
+    ext_old = z3.Implies(has_prev, z3.If(pb, bt(P, A), P == A))
+    # the entry after an accepting step: replaced when `store`, otherwise the old one (which exists: store is true when there is none)
+    new_pb, new_P = z3.If(store, nb, pb), z3.If(store, nshape, P)
+    ext_new = z3.If(new_pb, bt(new_P, A), new_P == A)
+    out = []
+
+    def ob(clause, pc, goal, serves=("C02",)):
+        out.append({"clause": clause, "kind": "vc", "pc": ax + pc, "goal": goal, "path": [], "meta": {"M": M, "P": P, "alpha": A, "b": b, "pb": pb, "has_prev": has_prev}, "serves": list(serves)})
+
+    ob("C02:lemma:variadic-step-sound(accept => every shape assignment extending the new entry satisfies the occurrence and extends the old entry)",
+       [accept, ext_new], z3.And(sat, ext_old))
+    ob("C02:lemma:variadic-step-complete(a shape assignment extending the entry that satisfies the occurrence => accept, and it extends the new entry)",
+       [ext_old, sat], z3.And(accept, ext_new))
+    ob("C02:lemma:variadic-step-without-previous-entry-accepts-and-stores-the-occurrence", [z3.Not(has_prev)], z3.And(accept, store, nb == b, nshape == M))
+    ob("C02:lemma:variadic-entry-only-grows(an exact entry is never replaced by a different shape; a lower bound only moves up)",
+       [accept, has_prev], z3.If(pb, bt(P, new_P), z3.And(z3.Not(new_pb), new_P == P)))
+    # idempotence: the same occurrence against the entry it left behind is accepted and leaves the same entry
+    V2 = BcVal(M, new_P)
+    ax2 = [bt(new_P, new_P), z3.And(BcOk(M, new_P) == BcOk(new_P, M), V2 == BcVal(new_P, M)),
+           z3.Implies(z3.And(bt(M, new_P), bt(new_P, new_P)), z3.And(BcOk(M, new_P), bt(V2, new_P))),
+           z3.Implies(BcOk(M, new_P), z3.And(bt(M, V2), bt(new_P, V2))),
+           z3.Implies(z3.And(bt(V2, new_P), bt(new_P, V2)), V2 == new_P),
+           z3.Implies(z3.And(bt(M, new_P), bt(new_P, M)), M == new_P)]
+    a3, st3, nb3, ns3 = c01.variadic_step(ops, b, M, z3.BoolVal(True), new_pb, new_P, BcOk(M, new_P), V2)
+    out.append({"clause": "C04:lemma:accepting-variadic-step-is-idempotent(repeating a passed '*name' check passes again and leaves the same entry)", "kind": "vc",
+                "pc": ax + ax2 + [accept], "goal": z3.And(a3, z3.If(st3, nb3, new_pb) == new_pb, z3.If(st3, ns3, new_P) == new_P), "path": [],
+                "meta": {"M": M, "P": P, "b": b, "pb": pb, "has_prev": has_prev}, "serves": ["C02", "C04"]})
+    out.append({"clause": "canary:c02-variadic-lemma-axioms-satisfiable(both-flagged occurrence accepted against a different stored shape)", "kind": "canary",
+                "pc": ax + [accept, has_prev, pb, b, M != P, V != M], "goal": z3.BoolVal(False), "path": [], "meta": {}})
+    return out
+
+
+class _SeqOps:
+    """the boolean / sequence operations variadic_step needs, over z3 terms"""
+
+    def and_(self, *xs):
+        return z3.And(*xs)
+
+    def or_(self, *xs):
+        return z3.Or(*xs)
+
+    def not_(self, x):
+        return z3.Not(x)
+
+    def ite(self, c, x, y):
+        return z3.If(c, x, y)
+
+    ite_seq = ite
+
+    def seq_eq(self, x, y):
+        return x == y
